@@ -66,3 +66,7 @@ CORPUS = [
     M("n-mod-256", C, "        return Command._message_id & 0xFF", "        return Command._message_id % 256", "S"),
     M("n-len-reordered", F, "        header[1] = len(data) + self._HEADER_LENGTH", "        header[1] = self._HEADER_LENGTH + len(data)", "S"),
 ]
+# round 7 (C12.d): one serialisation - one message id - per command sent
+CORPUS += [
+    M("command-serialised-twice", "msmart/device/AC/device.py", "        responses = await super()._send_command(command)\n", "        _LOGGER.debug(\"Sending %s\", command.tobytes().hex())\n        responses = await super()._send_command(command)\n"),
+]
